@@ -32,10 +32,10 @@ Definition presult_same (a b : presult NumF) : bool :=
   end.
 
 (* one hard-state case: placements, Cartesian placements, enclosing radius (polygons and molecules), score *)
-Definition geom_case_ok (syms : list (tf NumF)) (s : site NumF) (c : cell NumF) (sh : shape NumF)
+Definition geom_case_ok (syms : list (tf NumF)) (ss : list (site NumF)) (c : cell NumF) (sh : shape NumF)
     (radius area fmin_ : float) (rel cart : list (tf NumF)) (score : option float) : bool * bool * bool * bool :=
-  let st := mkPstate syms s c sh radius area in
-  let rel_m := positions NumF syms s in
+  let st := mkPstate syms ss c sh radius area in
+  let rel_m := relative_positions NumF st in
   (all2 tf_same rel_m rel,
    all2 tf_same (map (to_cartesian_isometry NumF c) rel_m) cart,
    fsame (shape_radius NumF fmin_ sh) radius,
